@@ -48,6 +48,7 @@ type Harness struct {
 	EnvStep        *ssa.Function
 	ExpectIDs      []string
 	Outside        []string
+	Also           map[string]bool
 
 	EntryFn *ssa.Function
 
@@ -184,6 +185,10 @@ func (h *Harness) apply(d string) error {
 		h.EnvStepName = rest
 	case "expect":
 		h.ExpectIDs = append(h.ExpectIDs, strings.Fields(rest)...)
+	case "also":
+		for _, p := range strings.Fields(rest) {
+			h.Also[p] = true
+		}
 	case "bound":
 		h.Bound = rest
 	case "outside":
@@ -196,7 +201,7 @@ func (h *Harness) apply(d string) error {
 
 // LoadHarnessFiles parses the harness sources of one property.
 func LoadHarnessFiles(dir, prop string) ([]*Harness, map[string][]string, error) {
-	files, err := filepath.Glob(filepath.Join(dir, prop, "*.go"))
+	files, err := filepath.Glob(filepath.Join(dir, "C*", "*.go"))
 	if err != nil {
 		return nil, nil, err
 	}
@@ -227,6 +232,13 @@ func LoadHarnessFiles(dir, prop string) ([]*Harness, map[string][]string, error)
 				fileDirs = append(fileDirs, parseDirectives(cg)...)
 			}
 		}
+		own := filepath.Base(filepath.Dir(f)) == prop
+		if !own {
+			src, rerr := os.ReadFile(f)
+			if rerr != nil || !strings.Contains(string(src), "//verif:also") {
+				continue
+			}
+		}
 		proto := newHarness()
 		proto.Prop = prop
 		proto.File = f
@@ -239,7 +251,7 @@ func LoadHarnessFiles(dir, prop string) ([]*Harness, map[string][]string, error)
 		if proto.PkgDir == "" {
 			return nil, nil, fmt.Errorf("%s: missing //verif:pkg", f)
 		}
-		pkgFiles[proto.PkgDir] = append(pkgFiles[proto.PkgDir], f)
+		nSel := 0
 		for _, decl := range af.Decls {
 			fd, ok := decl.(*ast.FuncDecl)
 			if !ok || fd.Recv != nil {
@@ -278,7 +290,14 @@ func LoadHarnessFiles(dir, prop string) ([]*Harness, map[string][]string, error)
 				}
 				return true
 			})
+			if !own && !h.Also[prop] {
+				continue
+			}
+			nSel++
 			hs = append(hs, h)
+		}
+		if nSel > 0 {
+			pkgFiles[proto.PkgDir] = append(pkgFiles[proto.PkgDir], f)
 		}
 	}
 	return hs, pkgFiles, nil
@@ -286,7 +305,7 @@ func LoadHarnessFiles(dir, prop string) ([]*Harness, map[string][]string, error)
 
 func newHarness() *Harness {
 	return &Harness{Tiers: map[string]bool{"quick": true, "thorough": true}, Profile: "bv",
-		Stubs: map[string]string{}, NoInit: map[string]bool{}, ForceInit: map[string]bool{}, Unwind: map[string]int{},
+		Also: map[string]bool{}, Stubs: map[string]string{}, NoInit: map[string]bool{}, ForceInit: map[string]bool{}, Unwind: map[string]int{},
 		MaxSteps: 50_000_000, MaxPaths: 200000, MaxForkDepth: 4000,
 		assumptions: map[string]bool{}, stubUsed: map[string]bool{}}
 }
